@@ -21,7 +21,24 @@ OP_NAMES = ["test.op", "test.pureop", "test.op_with_memread"]
 # ops that are never trivially dead (apply-pdl erases trivially dead ops while walking, apply-pdl-interp does not)
 EFFECT_NAMES = ["test.op", "test.op_with_memwrite"]
 _NAMES = OP_NAMES
-ATTR_NAMES = ["value", "a", "prop1", "b"]
+ATTR_NAMES = ["value", "a", "prop1", "b", "prop2"]
+
+
+# header of the pdl.pattern op.  Benefits: I16, non-negative; 0 is the lowest priority (NOT "never applies" — MLIR's
+# impossible-to-match sentinel is 65535), the boundary values around the signed/unsigned 16-bit limits.  Symbol names:
+# absent, ordinary, and the names the conversion / the pdl_interp interpreter use themselves (the conversion names the
+# rewriter function after the pattern: @matcher, @rewriters, @pdl_generated_rewriter collide with generated symbols).
+BENEFITS = [0, 1, 2, 3, 42, 255, 256, 32767, 32768, 65534, 65535]
+BENEFIT_W = [24, 10, 10, 4, 4, 3, 3, 8, 8, 6, 20]
+SYM_NAMES = [None, "pat", "matcher", "rewriter", "rewriters", "pdl_generated_rewriter", "pdl_generated_rewriter_0",
+             "finalize", "a.b"]
+SYM_W = [30, 14, 16, 6, 8, 8, 3, 3, 4]
+
+
+def gen_header(rng: random.Random) -> dict:
+    if rng.random() < 0.3:
+        return {"benefit": 1, "sym": None}
+    return {"benefit": _w(rng, BENEFITS, BENEFIT_W), "sym": _w(rng, SYM_NAMES, SYM_W)}
 
 
 def _w(rng: random.Random, items: list, weights: list[int]):
@@ -88,6 +105,7 @@ def _gen_pattern(rng: random.Random, rich: bool = True) -> dict:
     p = {"types": types, "attrs": attrs, "vals": vals, "ops": ops, "rw": [],
          "layout": rng.choice(["grouped", "lazy"]), "mres": rng.choice(["match", "rewrite"])}
     p["rw"] = gen_rewrite(rng, p, rich)
+    p["hdr"] = gen_header(rng)
     return p
 
 
@@ -146,6 +164,7 @@ def gen_diamond_pattern(rng: random.Random, rich: bool = True, effect_only: bool
         p = {"types": types, "attrs": attrs, "vals": vals, "ops": ops, "rw": [],
              "layout": rng.choice(["grouped", "lazy"]), "mres": rng.choice(["match", "rewrite"]), "diamond": True}
         p["rw"] = gen_rewrite(rng, p, rich)
+        p["hdr"] = gen_header(rng)
         return p
     finally:
         _NAMES = OP_NAMES
@@ -287,6 +306,7 @@ def gen_chain_pattern(rng: random.Random, rich: bool = True) -> dict:
         else:
             acts = gen_rewrite(rng, p, rich)
         p["rw"] = acts
+        p["hdr"] = gen_header(rng)
         return p
     finally:
         _NAMES = OP_NAMES
@@ -562,9 +582,42 @@ class Builder:
                  "results": [tys[t] for t in po["results"]]}
             if rng.random() < 0.2:
                 o["attrs"].append(["extra", rng.choice(ALL_ATTRS)])
+            if al and rng.random() < 0.3:
+                self.shadow(o)
             self.ops.append(o)
             where[i] = len(self.ops) - 1
         return where[len(p["ops"]) - 1]
+
+    def shadow(self, o: dict) -> bool:
+        """an attribute AND a property of the same name on one op (generic syntax `<{"n" = x}> {"n" = y}`; legal where
+        the op may carry a property of that name: prop1..3 of the test ops, any name on unregistered ops).  An
+        operation's named attribute is the property when both exist (Operation.get_attr_or_prop, MLIR's getAttr):
+        the copy that is looked at keeps its value, the shadowed copy gets the same or another value; or the other
+        way round (then the op is a near miss)"""
+        rng = self.rng
+        unreg = not o["name"].startswith("test.")
+        c = [("p", e) for e in o["props"] if not any(a[0] == e[0] for a in o["attrs"])]
+        c += [("a", e) for e in o["attrs"] if (unreg or e[0] in ("prop1", "prop2", "prop3")) and not any(x[0] == e[0] for x in o["props"])]
+        if not c:
+            return False
+        side, e = rng.choice(c)
+        other = rng.choice([x for x in ALL_ATTRS if x != e[1]])
+        r = rng.random()
+        if side == "p":
+            # the property decides: the attribute of the same name is noise (r < .7) — or the two values are exchanged
+            if r < 0.7:
+                o["attrs"].append([e[0], other if r < 0.55 else e[1]])
+            else:
+                o["attrs"].append([e[0], e[1]])
+                e[1] = other
+        else:
+            # an attribute so far: a property of the same name takes over
+            if r < 0.5:
+                o["props"].append([e[0], e[1]])
+                e[1] = other
+            else:
+                o["props"].append([e[0], other if r < 0.85 else e[1]])
+        return True
 
     def mutate(self, lo: int, only: str | None = None) -> str:
         """one near-miss mutation of an op at position ≥ lo; returns its kind"""
@@ -576,8 +629,10 @@ class Builder:
         used = any(r[0] == "r" and r[1] == i for x in self.ops for r in x["operands"])
         kinds = ["attr-value", "attr-drop", "attr-to-prop", "operand-drop", "operand-add", "operand-other-def",
                  "operand-same", "operand-other-result", "type", "name", "result-add", "operand-arg", "attr-type",
-                 "operand-twin-producer", "operand-swap-index"]
+                 "operand-twin-producer", "operand-swap-index", "attr-and-prop"]
         k = only if only is not None else rng.choice(kinds)
+        if k == "attr-and-prop":
+            return k if self.shadow(o) else "none"
         if k == "operand-twin-producer":
             # the same result index, but of a second producer op with the same name / attributes / operands
             cands = [(a, j) for a in range(lo, len(self.ops)) for j, r in enumerate(self.ops[a]["operands"]) if r[0] == "r"]
@@ -831,6 +886,13 @@ def pattern_variants(p: dict):
             q = copy.deepcopy(p); q["vals"][i] = None; yield q
     if p.get("layout") != "grouped" or p.get("mres") != "rewrite":
         q = copy.deepcopy(p); q["layout"] = "grouped"; q["mres"] = "rewrite"; yield q
+    h = p.get("hdr")
+    if h is not None:
+        q = copy.deepcopy(p); q.pop("hdr"); yield q
+        if h.get("sym") is not None:
+            q = copy.deepcopy(p); q["hdr"]["sym"] = None; yield q
+        if h.get("benefit", 1) != 1:
+            q = copy.deepcopy(p); q["hdr"]["benefit"] = 1; yield q
 
 
 def shrink_pattern(p: dict, still: Any, budget: int = 120) -> dict:
